@@ -11,6 +11,7 @@ use sylvia::cw_std::Coin;
 
 pub mod f1;
 pub mod f3;
+pub mod twin;
 
 pub struct WorldPlan {
     pub custom_chain: bool,
